@@ -41,9 +41,10 @@ def copies (filters : List Filter) (chain : Nat) (addr : Bytes) : Nat :=
 abbrev SubId := Nat
 
 /-- The channel sends of one `Publish`, in order, for the map iteration order `subs` (a list of
-`(id, filters)`), and whether it returns an error.  An undecodable VAA makes `Publish` return at the first
-subscription *with* filters: unfiltered subscriptions iterated before it have already been sent to, everything
-after it is skipped. -/
+`(id, filters)`), and whether it returns an error.  For an undecodable VAA every subscription *with* filters is
+skipped (there is no emitter to match) and the decode error is returned at the end; subscriptions without filters are
+sent to wherever they sit in the map order (`fix:` of the early `return err`, which made the set of served filter-less
+subscribers depend on Go's map order). -/
 def sends (d : Decoded) : List (SubId × List Filter) → List SubId × Bool
   | [] => ([], false)
   | (id, fs) :: rest =>
@@ -52,7 +53,9 @@ def sends (d : Decoded) : List (SubId × List Filter) → List SubId × Bool
       (id :: l, e)
     else
       match d with
-      | none => ([], true)
+      | none =>
+        let (l, _) := sends d rest
+        (l, true)
       | some (c, a) =>
         let (l, e) := sends d rest
         (List.replicate (copies fs c a) id ++ l, e)
